@@ -364,7 +364,7 @@ pub fn cases(ctx: &Ctx, section: &str, unit: u64) -> Vec<Case> {
                     execs: vec![ExecSpec::single(key(&mut rng), STACK_MAIN, sc.task.clone())],
                     params: Json::obj()
                         .with("file_index", Json::u(rng.below(1000)))
-                        .with("gadget", Json::u(rng.below(9)))
+                        .with("gadget", Json::u(rng.below(10)))
                         .with("variant_seed", Json::u(rng.next_u64() >> 12)),
                 });
             }
@@ -903,6 +903,68 @@ pub fn judge(case: &Case, rep: &mut Report) {
             let Some(content) = case.fss[task.fs].files.get(&f) else {
                 return;
             };
+            if case.params.gu("gadget") == 9 {
+                // declarations in one file, the ambiguous call at the end of the entry file: the
+                // error names the call, the notes name the candidates in the other file
+                let entry = files[0].clone();
+                let decls = "int zz_err_ovl ( int zz_x ) { return 0 ; }\n// between\n  int zz_err_ovl ( uint zz_y ) { return 1 ; }";
+                let call = "static const int zz_g11 =\n   zz_err_ovl ( true ) ;";
+                let lines_of = |name: &str| case.fss[task.fs].files.get(name).map(|c| c.matches('\n').count() as u32 + 2);
+                let (Some(f_first), Some(e_first)) = (lines_of(&f), lines_of(&entry)) else {
+                    return;
+                };
+                let mut gx = ex.clone();
+                let (want_err, want_notes) = if f == entry {
+                    gx.threads[0].tasks[0].faults.push(
+                        Fault::new(FaultKind::Append, Sel::File(f.clone())).text(&format!("\n{decls}\n{call}\n")),
+                    );
+                    ((entry.clone(), e_first + 4, 4u32), vec![(f.clone(), f_first, 5u32), (f.clone(), f_first + 2, 7u32)])
+                } else {
+                    gx.threads[0].tasks[0]
+                        .faults
+                        .push(Fault::new(FaultKind::Append, Sel::File(f.clone())).text(&format!("\n{decls}\n")));
+                    gx.threads[0].tasks[0]
+                        .faults
+                        .push(Fault::new(FaultKind::Append, Sel::File(entry.clone())).text(&format!("\n{call}\n")));
+                    ((entry.clone(), e_first + 1, 4u32), vec![(f.clone(), f_first, 5u32), (f.clone(), f_first + 2, 7u32)])
+                };
+                let r = run_single(case, &gx, rep);
+                if r.kind == OutcomeKind::Panic {
+                    rep.findings.push(finding("panic", &r.panic_site, format!("{}: {}", case.label, r.text)));
+                    return;
+                }
+                if !r.text.contains("error: ambiguous call to zz_err_ovl") {
+                    // the file is pasted twice (redefinition), or never reaches the typer
+                    rep.count("corpus_notes_not_judged_other_error", 1);
+                    return;
+                }
+                rep.count("corpus_notes_gadgets_planted", 1);
+                let got_err = parse_diag(&r.text).map(|d| (d.file, d.line, d.col));
+                let got_notes: Vec<(String, u32, u32)> = r
+                    .text
+                    .lines()
+                    .filter_map(|l| {
+                        let pos = l.find(": note: ")?;
+                        let mut it = l[..pos].rsplitn(3, ':');
+                        let col: u32 = it.next()?.parse().ok()?;
+                        let line: u32 = it.next()?.parse().ok()?;
+                        Some((it.next()?.to_string(), line, col))
+                    })
+                    .collect();
+                if got_err.as_ref() != Some(&want_err) || got_notes != want_notes {
+                    rep.findings.push(finding(
+                        "diagnostic-position",
+                        "note-position",
+                        format!(
+                            "{}: ambiguous call planted at {want_err:?} with candidates at {want_notes:?} is reported at {got_err:?} with notes {got_notes:?}",
+                            case.label
+                        ),
+                    ));
+                } else if f != entry {
+                    rep.nontrivial.insert(digest);
+                }
+                return;
+            }
             let (gadget, err_line, err_col): (&str, u32, u32) = match case.params.gu("gadget") {
                 6 => ("static const int zz_p1 = 1 zz_err_extra_token ;", 0, 28),
                 7 => ("static const int zz_p2 =\n  ( 1 + 2 zz_err_unclosed ;", 1, 11),
